@@ -599,10 +599,32 @@ theorem same_identity_same_seed (root : String) (peer : List Nat) (amb1 amb2 : N
     (storeOpening root peer amb1).cipherInput = peer.take 16 := by
   refine ⟨rfl, rfl, by decide, rfl, rfl, rfl⟩
 
-/-- and the identity matters: another peer id (differing in its first 16 bytes) gives another seed — the files of the old
-identity do not decrypt (`scan_decrypt_or_skip`) and are deleted by the start-up scan -/
-theorem other_identity_other_seed (root : String) (peer peer' : List Nat) (amb : Nat)
-    (h : peer.take 16 ≠ peer'.take 16) : (storeOpening root peer amb).seed ≠ (storeOpening root peer' amb).seed := h
+/-- **Another identity: the old files are skipped.** Record files as byte strings under an ideal AEAD `C` (the `auth`
+abstraction of `scan_decrypt_or_skip`), the store key derived from the cipher input by `kdf` (HKDF; hypothesis: the two
+seeds in play give different keys), the per-key nonce from seed and record key by `nonceOf`. A complete file written by
+a node opened for `peer` and scanned (or read by `get`) by a node opened for `peer'` — any root, anything ambient —
+fails to decode: `get_record_from_bytes` answers `None`, which in `update_records_from_an_existing_store` is the branch
+that removes the file ("Failed to decrypt record from file …, clean it up"). The seeds themselves differ. The deletion
+is not part of this statement: the `St` model has no constructor for a foreign file (for a file the scan cannot decode
+that IS in the model — a torn one — see `torn_file_gone_after_restart`). -/
+theorem other_identity_file_skipped (C : Cipher) (hC : C.Ideal) (kdf : List Nat → Nat) (nonceOf : List Nat → Nat → Nat)
+    (root root' : String) (peer peer' : List Nat) (amb amb' : Nat)
+    (hk : kdf (peer.take 16) ≠ kdf (peer'.take 16)) (k : Nat) (v : Bytes) :
+    let o := storeOpening root peer amb
+    let o' := storeOpening root' peer' amb'
+    o.seed ≠ o'.seed ∧
+    decodeFile C (kdf o'.cipherInput) (nonceOf o'.seed) k (C.enc (kdf o.cipherInput) (nonceOf o.seed k) v) = none := by
+  intro o o'
+  have hci : o.cipherInput = peer.take 16 := rfl
+  have hci' : o'.cipherInput = peer'.take 16 := rfl
+  have hs : o.seed = peer.take 16 := rfl
+  have hs' : o'.seed = peer'.take 16 := rfl
+  refine ⟨?_, ?_⟩
+  · rw [hs, hs']; intro e; exact hk (by rw [e])
+  · apply decode_foreign hC
+    rintro ⟨e, _⟩
+    rw [hci, hci'] at e
+    exact hk e
 
 #print axioms SafeNet.Props.C02.restart_sound
 #print axioms SafeNet.Props.C02.restart_sound_shipped
@@ -638,5 +660,5 @@ theorem other_identity_other_seed (root : String) (peer peer' : List Nat) (amb :
 #print axioms SafeNet.Props.C02.crash_after_failed_write
 #print axioms SafeNet.Props.C02.crash_after_failed_open_keeps_previous
 #print axioms SafeNet.Props.C02.same_identity_same_seed
-#print axioms SafeNet.Props.C02.other_identity_other_seed
+#print axioms SafeNet.Props.C02.other_identity_file_skipped
 end SafeNet.Props.C02
